@@ -12,9 +12,9 @@ import (
 
 func init() {
 	register(&PropSpec{
-		ID: "C20",
+		ID:          "C20",
 		Explanation: "Structural necessary conditions for 'Flush is a barrier and policies cut where they promise'. P1: the policy installed by each exported flush-policy option has exactly the promised trigger table (none: never/never; interval: ticker(Interval)/never; size: never/size > BufferSize; interval-or-size: both; immediate: never/always). P2: in the flush loop the size test is evaluated on the payload size after the write was added, under the stream mutex, and the cut is called exactly on its true edge. P3: the flush loop answers an explicit flush with the result of a cut it has just performed, and Flush returns nil only with that answer. P4: State() takes its snapshot with the stream mutex held. P5: the cut is dominated by the empty-buffer test.",
-		NotDecided: []string{"the conservation identity of State()", "interval timing", "barrier semantics under concurrent Flush callers", "a zero-point write producing a chunk with an empty group"},
+		NotDecided:  []string{"the conservation identity of State()", "interval timing", "barrier semantics under concurrent Flush callers", "a zero-point write producing a chunk with an empty group"},
 		Assumptions: []string{"policies are identified through the exported option constructors that install them"},
 		Rules: func(r *Run) {
 			le := newLockEngine(r.P)
@@ -265,16 +265,17 @@ func ruleC20P2(r *Run, le *LockEngine, cut *cutInfo) {
 	leaves := p.Leaves(instrCall(c).Args[0], provOpts{})
 	r.Check(name+" IsFlush on payload size", hasLeaf(leaves, "field:"+fkPayload) && len(leavesWithin(leaves, []string{"field:" + fkPayload, "param:*"})) == 0, posOf(p, c), name, "IsFlush argument derives from ["+joinLeaves(leaves)+"]")
 	// an add to sendBufferPayloadSize dominates the IsFlush call, and adds the write's payload size
-	var add *ssa.Store
-	for _, st := range storesIn(fn, fkPayload) {
-		if dominatesInstr(st, c) {
-			add = st
+	// (a direct store, or a call to a helper that stores the field on all of its paths)
+	var add ssa.Value
+	allInstrs(fn, func(ins ssa.Instruction) {
+		if v, ok := p.resetsField(ins, fkPayload); ok && dominatesInstr(ins, c) {
+			add = v
 		}
-	}
+	})
 	okAdd := false
 	detail := "no store to sendBufferPayloadSize dominates the test"
 	if add != nil {
-		al := p.Leaves(add.Val, provOpts{})
+		al := p.Leaves(add, provOpts{})
 		okAdd = hasLeaf(al, "field:"+fkPayload) && hasLeaf(al, "call:/iscp.DataPointGroup.payloadSize")
 		detail = "the dominating store writes [" + joinLeaves(al) + "] (old size + the group's payloadSize())"
 	}
